@@ -150,3 +150,13 @@ Proof.
   revert j; induction l as [|x l IH]; intros j Hj; simpl in *; [lia|].
   destruct j as [|j]; [reflexivity|]. apply IH. lia.
 Qed.
+
+Lemma combine_app {A B} (l1 l2 : list A) (r1 r2 : list B) : length l1 = length r1 ->
+  combine (l1 ++ l2) (r1 ++ r2) = combine l1 r1 ++ combine l2 r2.
+Proof.
+  revert r1; induction l1 as [|x l1 IH]; intros [|y r1] H; simpl in *; try lia; [reflexivity|]. f_equal. apply IH. lia.
+Qed.
+
+Lemma combine_map_both {A B C D} (f : A -> C) (g : B -> D) l r :
+  combine (map f l) (map g r) = map (fun ab => (f (fst ab), g (snd ab))) (combine l r).
+Proof. revert r; induction l as [|x l IH]; intros [|y r]; simpl; try reflexivity. now rewrite IH. Qed.
